@@ -3,3 +3,4 @@ pub mod vlq;
 pub mod mappings;
 pub mod rmi;
 pub mod json;
+pub mod metro;
